@@ -208,6 +208,22 @@ def oc_family(tier):
                 if " u " in " " + body + " ":
                     text += "u: B C;\n"
                 out.append(("oc_%d_%d_%s" % (i, j, cn), text))
+    # constructs NESTED inside an option / loop / group / alternation of a non-last alternative: a
+    # mismatch two levels down must still abandon the alternative
+    wrappers = ["[%s]", "(%s)*", "(%s)+", "(%s | D)", "(%s)"]
+    inners = ["B C", "B C* D", "B t", "B (C | D) A"]
+    nested = [(w, x) for w in wrappers for x in inners]
+    for k, (w, x) in enumerate(nested):
+        combos = [(j, c) for j in (0, 1) for c in (0, 3)]
+        if tier == "quick":
+            combos = [combos[k % 4]]
+        for (j, c) in combos:
+            l, (cn, ct) = ["A C", "A B C* Q"][j], ctxs[c]
+            body = "A %s C / %s" % (w % x, l)
+            text = "token A B C D P Q N M W;\nskip W;\nstart s;\n" + (ct % body)
+            if " t " in " " + body.replace("(", " ").replace(")", " ") + " ":
+                text += "t: A;\n"
+            out.append(("ocn_%d_%d_%s" % (k, j, cn), text))
     return out
 
 
